@@ -90,8 +90,8 @@ def search_seeds(install, run, seeds, describe, only_function=None, same_class=F
                 return {"found": True, "input": {"seed": seed, **describe}, "observed": {"function": e.function, "clause": e.clause, "details": repr(e.details)},
                         "witness_key": f"{e.function}|{e.clause}", "cases": cases, "contract_evaluations": monitors.EVALS["n"]}
             except AssertionError as e:
-                if only_function:
-                    continue
+                if only_function and not same_class:
+                    continue        # first pass: look for a run-time contract of exactly that function; a run that pams itself aborts is accepted in the second pass
                 return {"found": True, "input": {"seed": seed, **describe}, "observed": {"exception": "AssertionError", "trace": traceback.format_exc()[-700:]},
                         "witness_key": "AssertionError", "cases": cases, "contract_evaluations": monitors.EVALS["n"]}
         if only_function and not same_class:
